@@ -216,6 +216,19 @@ func init() {
 		}
 		return sc
 	})
+	// "noquorumdyn:<limit>": 5 validators, two leave (3 remain), then one of the remaining three falls silent:
+	// the two live ones keep ticking without a quorum. The suspend threshold must follow the current
+	// validator count (3), not the count at start (5).
+	sched.RegisterScenario("noquorumdyn", func(p []string) *sched.Scenario {
+		limit := atoi(p[1])
+		base := sched.TwoLeaves(5, 8, 90)
+		sc := &sched.Scenario{Cfg: sim.Config{N: 5, SuspendLimit: limit}, Seed: base.Seed}
+		sc.Seed = append(sc.Seed, sched.Action{K: "S", A: 2}, sched.Action{K: "S", A: 3}, sched.Action{K: "S", A: 4}, sched.Action{K: "T", A: 0})
+		for i := 0; i < 45; i++ {
+			sc.Seed = append(sc.Seed, sched.Action{K: "TICK", A: 0, B: 1}, sched.Action{K: "TICK", A: 1, B: 0})
+		}
+		return sc
+	})
 	sched.CustomActions["TICK"] = func(c *sim.Cluster, a sched.Action) error {
 		// one iteration of babble(): gossip with the selected peer (if babbling), then checkSuspend
 		n := c.Nodes[a.A]
@@ -293,6 +306,32 @@ func init() {
 			sItems = append(sItems, s1Items(fmt.Sprintf("noquorum:1:%d:%d", pair[0], pair[1]), d2, 2, []string{"C02"})...)
 		}
 		sItems = append(sItems, s1Items("noquorum:2:2:3:noT", d2+1, 2, []string{"C02"})...)
+		// validator count changed at run time (5 -> 3), then no quorum: the seed and every single deviation of a tick
+		// (the ticking node's selector picks another peer, or a submission is inserted)
+		{
+			name := "noquorumdyn:25"
+			sc := sched.ScenarioByName(name)
+			first := len(sc.Seed) - 90
+			var devs []sched.Dev
+			for _, i := range []int{0, 1} {
+				for j := 0; j < 5; j++ {
+					if j != i {
+						devs = append(devs, sched.Dev{Alt: sched.Action{K: "TICK", A: i, B: j}})
+					}
+				}
+				devs = append(devs, sched.Dev{Alt: sched.Action{K: "T", A: i}, Ins: true})
+			}
+			stride := 6
+			if th {
+				stride = 1
+			}
+			sItems = append(sItems, sched.Item{Scenario: name, Mode: "s3", Mons: []string{"C02"}})
+			var pos []int
+			for p := first; p < len(sc.Seed); p += stride {
+				pos = append(pos, p)
+			}
+			sItems = append(sItems, s3Items(name, 1, pos, devs, []string{"C02"}, 0)...)
+		}
 		if th {
 			sItems = append(sItems, s1Items("noquorum:2:0:2", d2, 2, []string{"C02"})...)
 			sItems = append(sItems, s1Items("noquorum:5:2:3:noT", 9, 3, []string{"C02"})...)
@@ -360,7 +399,7 @@ func init() {
 			samples = append(samples, s)
 		}
 		cov["samples"] = samples
-		cov["rule"] = fmt.Sprintf("(a) gate: node 0 with history in each of {suspended at run time, maintenance mode (bootstrapped from its database), joining, catching-up, shut down}; all sequences of depth %d over %v delivered to the real processRPC / addTransaction; after every request a digest (known events, last block, undetermined count, head, commits) must be unchanged, EagerSync and Join must be answered with an error, and the node suspended at run time must answer SyncRequests with exactly the reference difference (events the requester lacks per its known map, parents before children, cut at the limit). The state does not move, so all sequences run on one instance (closed BFS). (b) self-suspension: n=4 with two validators silent (no quorum), suspend limit 1 (and 2 without submissions, one level deeper), all sequences of depth %d over {live node ticks and its selector picks any other node, submission}; a tick = gossip + checkSuspend as in the babble loop; whenever new undetermined events exceed limit x validators before checkSuspend the node must be Suspended after it; plus the leave seed for the eviction clause", depth, gateReqs, d2)
+		cov["rule"] = fmt.Sprintf("(a) gate: node 0 with history in each of {suspended at run time, maintenance mode (bootstrapped from its database), joining, catching-up, shut down}; all sequences of depth %d over %v delivered to the real processRPC / addTransaction; after every request a digest (known events, last block, undetermined count, head, commits) must be unchanged, EagerSync and Join must be answered with an error, and the node suspended at run time must answer SyncRequests with exactly the reference difference (events the requester lacks per its known map, parents before children, cut at the limit). The state does not move, so all sequences run on one instance (closed BFS). (b) self-suspension: n=4 with two validators silent (no quorum), suspend limit 1 (and 2 without submissions, one level deeper), all sequences of depth %d over {live node ticks and its selector picks any other node, submission}; a tick = gossip + checkSuspend as in the babble loop; whenever new undetermined events exceed limit x validators before checkSuspend the node must be Suspended after it; plus a 5->3 validator history followed by loss of quorum (the threshold must follow the current validator count) with every single tick deviation, plus the leave seed for the eviction clause", depth, gateReqs, d2)
 		rep.Assumptions = []string{"the babble() loop itself is not driven: one loop iteration is executed by the harness as gossip followed by checkSuspend, i.e. the overlap of checkSuspend with a still-running gossip goroutine is serialised"}
 		if tot.SyncOK == 0 && len(rep.Violations) == 0 {
 			rep.Finish()
